@@ -223,8 +223,7 @@ class ProgressBar(object):
         """
         if not self._max:
             self._max = self._step
-
-        if self._step == self._max and not self._should_overwrite:
+        elif self._step == self._max and not self._should_overwrite:
             return
 
         self.set_progress(self._max)
